@@ -127,13 +127,65 @@ func ReachableFrom(start *ssa.BasicBlock, removed []Edge) map[*ssa.BasicBlock]bo
 
 // Exit is a return or panic of a function.
 type Exit struct {
+	// Instr is the return or panic instruction — or, for one case of a merged return (see Exits), the terminator of
+	// the predecessor block that selects the case, so that Instr.Block() is the block whose execution means "this exit".
 	Instr   ssa.Instruction
+	Ret     *ssa.Return // the return instruction (nil for a panic)
 	Panic   bool
 	Results []ssa.Value // for returns
+	Via     *Edge       // one case of a merged return: the edge into the block that only merges results and returns
 }
 
-// Exits lists all returns and panics of fn.
+// Exits lists all returns and panics of fn. A return block that does nothing
+// but merge result variables (phis) and return — `res := a; if c { res = b };
+// return res`, named results assigned on several paths — is listed as one exit
+// per incoming edge with that edge's values, exactly as if each path had its
+// own return statement.
 func Exits(fn *ssa.Function) []Exit {
+	var out []Exit
+	for _, e := range rawExits(fn) {
+		if e.Panic {
+			out = append(out, e)
+			continue
+		}
+		blk := e.Ret.Block()
+		pure, hasPhi := len(blk.Preds) >= 2, false
+		for _, ins := range blk.Instrs {
+			switch x := ins.(type) {
+			case *ssa.Phi:
+				for _, r := range e.Results {
+					if r == ssa.Value(x) {
+						hasPhi = true
+					}
+				}
+			case *ssa.DebugRef, *ssa.Return:
+			default:
+				pure = false
+			}
+		}
+		if !pure || !hasPhi {
+			out = append(out, e)
+			continue
+		}
+		for i, p := range blk.Preds {
+			if len(p.Instrs) == 0 {
+				continue
+			}
+			res := make([]ssa.Value, len(e.Results))
+			for k, r := range e.Results {
+				if phi, ok := r.(*ssa.Phi); ok && phi.Block() == blk {
+					res[k] = phi.Edges[i]
+				} else {
+					res[k] = r
+				}
+			}
+			out = append(out, Exit{Instr: p.Instrs[len(p.Instrs)-1], Ret: e.Ret, Results: res, Via: &Edge{From: p, To: blk}})
+		}
+	}
+	return out
+}
+
+func rawExits(fn *ssa.Function) []Exit {
 	var out []Exit
 	for _, blk := range fn.Blocks {
 		if len(blk.Instrs) == 0 {
@@ -141,7 +193,7 @@ func Exits(fn *ssa.Function) []Exit {
 		}
 		switch x := blk.Instrs[len(blk.Instrs)-1].(type) {
 		case *ssa.Return:
-			out = append(out, Exit{Instr: x, Results: x.Results})
+			out = append(out, Exit{Instr: x, Ret: x, Results: x.Results})
 		case *ssa.Panic:
 			out = append(out, Exit{Instr: x, Panic: true})
 		}
@@ -161,11 +213,11 @@ type ReturnCase struct {
 
 func ReturnCases(fn *ssa.Function, result int) []ReturnCase {
 	var out []ReturnCase
-	for _, e := range Exits(fn) {
+	for _, e := range rawExits(fn) {
 		if e.Panic || result >= len(e.Results) {
 			continue
 		}
-		ret := e.Instr.(*ssa.Return)
+		ret := e.Ret
 		var expand func(v ssa.Value, blk, to *ssa.BasicBlock, depth int)
 		expand = func(v ssa.Value, blk, to *ssa.BasicBlock, depth int) {
 			if phi, ok := v.(*ssa.Phi); ok && depth < 8 {
